@@ -145,6 +145,8 @@ type avsH struct {
 	resps     map[string][]byte // response the harness intends / used for (op,task)
 	directed  string            // non-empty inside a directed scenario: tag carried by violation sigs
 	halted    bool
+	nonce     uint64 // undelegation nonces (dom_avs_optin.go)
+	nSlash    int    // slash ids
 }
 
 func (h *avsH) op(line, obs string) {
@@ -376,6 +378,7 @@ func (h *avsH) doOpt(direct bool, action uint64, op, avs string) string {
 		}
 		return errors.New("discard")
 	})
+	// pre-state facts for the monitors, none of them read through x/operator's value code
 	var minSelf uint64
 	var avsAssets []string
 	registered := false
@@ -384,6 +387,13 @@ func (h *avsH) doOpt(direct bool, action uint64, op, avs string) string {
 		minSelf = info.Info.MinSelfDelegation
 		avsAssets = info.Info.AssetIDs
 	}
+	isOp := h.c.App.OperatorKeeper.IsOperator(h.c.Ctx, acc)
+	wasIn := false
+	if info, e := h.c.App.OperatorKeeper.GetOptedInfo(h.c.Ctx, op, avs); e == nil && info.OptedOutHeight == operatortypes.DefaultOptedOutHeight {
+		wasIn = true
+	}
+	self, total, priced := h.specUSD(op, avsAssets)
+	minRaw := avsMinRaw(minSelf)
 	err := h.c.CachedDo(func(ctx sdk.Context) error {
 		if direct {
 			if action == 1 {
@@ -407,23 +417,64 @@ func (h *avsH) doOpt(direct bool, action uint64, op, avs string) string {
 	}
 	h.op(fmt.Sprintf("avs.opt %d %d %s %s %s", d, action, op, avs, usd), code+"|"+st)
 	h.env.Outcome(fmt.Sprintf("opt.%d.%s", action, code))
-	// monitor: an accepted opt-in needs a registered operator, a registered AVS and self value >= minimum
-	if code == "ok" && action == 1 {
+	if action == 2 && code == "ok" {
+		// monitor: only an operator that is opted in can opt out, and it reads as opted out afterwards
+		h.env.Eval("C20.optout")
+		if !wasIn {
+			h.violate("C20.optout", "optout-not-opted-in", "opt-out accepted although "+op+" is not opted in to "+avs)
+		}
+		if st == "in" {
+			h.violate("C20.optout", "optout-not-recorded", "opt-out returned success but the operator still reads as opted in: "+op+" / "+avs)
+		}
+	}
+	if action != 1 {
+		return code
+	}
+	cls := "min0"
+	if minSelf > 0 {
+		cls = avsClassify(self, minRaw)
+	}
+	if registered && isOp && !wasIn {
+		h.env.Outcome("optin.self-vs-min." + cls + "." + code)
+		if minSelf > 0 && (code == "ok" || code == "ErrMinDelegationNotMet") {
+			h.env.DistinctKey(fmt.Sprintf("optin-%s-%d-%s-%s", cls, minSelf, self, code))
+		}
+	}
+	what := fmt.Sprintf("self-delegated value %s (raw 18-dec; total %s) of %s over assets %v, AVS %s minimum %d = raw %s [%s]", self, total, op, avsAssets, avs, minSelf, minRaw, cls)
+	if code == "ok" {
+		// monitor: an accepted opt-in needs a registered operator, a registered AVS, no current opt-in and a
+		// self-delegated value (the property's formula on the pools and the raw oracle prices) >= minimum
 		h.env.Eval("C20.optin")
-		if !h.c.App.OperatorKeeper.IsOperator(h.c.Ctx, acc) {
+		if !isOp {
 			h.violate("C20.optin", "optin-unregistered-operator", "opt-in accepted from "+op+" which is not an operator")
 		}
 		if !registered {
 			h.violate("C20.optin", "optin-unregistered-avs", "opt-in accepted for unregistered AVS "+avs)
 		}
-		self := big.NewInt(0) // expected self-delegated USD value from the genesis population (price 1)
-		for _, a := range avsAssets {
-			if a == h.asset0 {
-				self = big.NewInt(h.power[op])
-			}
+		if wasIn {
+			h.violate("C20.optin", "optin-twice", "opt-in accepted although "+op+" is already opted in to "+avs)
 		}
-		if self.Cmp(new(big.Int).SetUint64(minSelf)) < 0 {
-			h.violate("C20.optin", "optin-below-min", fmt.Sprintf("opt-in accepted: self-delegated value %s USD < AVS minimum %d", self, minSelf))
+		if self.Cmp(minRaw) < 0 {
+			h.violate("C20.optin", "optin-below-min", "opt-in accepted: "+what)
+		}
+		if st != "in" {
+			h.violate("C20.optin", "optin-not-recorded", "opt-in returned success but the operator does not read as opted in: "+op+" / "+avs)
+		}
+	} else if code != "panic" {
+		// monitor: a refused opt-in although every precondition of the clause holds
+		h.env.Eval("C20.optin-refused")
+		if isOp && registered && !wasIn && priced && self.Cmp(minRaw) >= 0 {
+			h.violate("C20.optin-refused", "optin-refused-eligible", "opt-in refused ("+code+") for a registered operator that is not opted in: "+what)
+		}
+		if st == "in" && !wasIn {
+			h.violate("C20.optin-refused", "optin-refused-but-recorded", "opt-in returned "+code+" but the operator now reads as opted in: "+op+" / "+avs)
+		}
+	}
+	// the value the keeper bases its decision on is the formula's value (C05 clause, evaluated at opt-in time)
+	if registered && isOp && !wasIn && priced && usd != "~" {
+		h.env.Eval("C20.optin-value")
+		if usd != self.String() {
+			h.violate("C20.optin-value", "optin-self-value-formula", fmt.Sprintf("GetOrCalculateOperatorUSDValues reports self value %s, formula on pools and prices gives %s (%s / %s)", usd, self, op, avs))
 		}
 	}
 	return code
@@ -857,7 +908,22 @@ func (h *avsH) start(env *Env, seed uint64, nOps int, rng *RNG) {
 	cfg.Powers = pw[:nOps]
 	h.env = env
 	h.rng = rng
+	// three assets: 6 decimals at price 1 (genesis stake), 8 decimals at a large non-trivial price,
+	// 18 decimals at a price of exactly or about 1 USD (finest value granularity: 10^-18 USD and below)
+	p1 := new(big.Int).Add(rng.BigBelow(pow10(13)), big.NewInt(1)).String()
+	p2, pd2 := "1", int32(0)
+	switch rng.Intn(4) {
+	case 0:
+		p2, pd2 = pow10(8).String(), 8
+	case 1:
+		pd2 = int32([]int{6, 8, 18}[rng.Intn(3)])
+		p2 = new(big.Int).Add(new(big.Int).Div(pow10(int(pd2)), big.NewInt(2)), rng.BigBelow(pow10(int(pd2)))).String()
+	}
+	cfg.Assets = append(cfg.Assets,
+		AssetSpec{Addr: "0x2260FAC5E5542a773Aa44fBCfeDf7C193bc2C599", Decimals: 8, Price: p1, PriceDec: 8},
+		AssetSpec{Addr: "0x6B175474E89094C44Da98b954EedeAC495271d0F", Decimals: 18, Price: p2, PriceDec: pd2})
 	h.c = NewChain(cfg)
+	h.nonce, h.nSlash = 0, 0
 	h.hist = nil
 	h.accOf = map[string]sdk.AccAddress{}
 	h.power = map[string]int64{}
@@ -893,7 +959,7 @@ func (h *avsH) start(env *Env, seed uint64, nOps int, rng *RNG) {
 	h.directed = ""
 	h.halted = false
 	h.op("avs.reset", "ok")
-	h.op(fmt.Sprintf("avs.env %s %s", wList(h.opAddrs), h.asset0), "ok")
+	h.op(fmt.Sprintf("avs.env %s %s", wList(h.opAddrs), wList(h.c.AssetIDs)), "ok")
 	h.op(h.epochsLine(), "ok")
 }
 
@@ -937,11 +1003,21 @@ func (h *avsH) genUpdate() {
 		u.assets = []string{h.asset0, h.bogus}
 	case 2:
 		u.assets = []string{}
+	case 3, 4:
+		u.assets = nil
+		for _, a := range h.c.AssetIDs {
+			if r.Chance(1, 2) {
+				u.assets = append(u.assets, a)
+			}
+		}
+		if len(u.assets) == 0 {
+			u.assets = []string{h.c.AssetIDs[2]}
+		}
 	default:
 		u.assets = []string{h.asset0}
 	}
 	u.unbonding = []uint64{0, 1, 2, 7, 7, 7}[r.Intn(6)]
-	u.minSelf = []uint64{0, 0, 1, 7, 50, 100, 101, 1000, 1<<63 - 1, 1 << 63, 1<<64 - 1}[r.Intn(11)]
+	u.minSelf = []uint64{0, 0, 1, 2, 3, 7, 50, 100, 101, 1000, 1<<63 - 1, 1 << 63, 1<<64 - 1}[r.Intn(13)]
 	u.epochID = []string{epochstypes.MinuteEpochID, epochstypes.MinuteEpochID, epochstypes.MinuteEpochID, epochstypes.MinuteEpochID, epochstypes.HourEpochID, "", "nope"}[r.Intn(7)]
 	u.caller = []string{h.owners[0], h.owners[0], h.owners[0], h.owners[1], h.stranger}[r.Intn(5)]
 	if u.action == 2 && r.Chance(3, 4) { // mostly the right name
@@ -1187,7 +1263,11 @@ func (h *avsH) prologue() {
 func (h *avsH) randomHistory(steps int) {
 	h.prologue()
 	for i := 0; i < steps && !h.halted; i++ {
-		switch h.rng.Pick(3, 3, 3, 2, 10, 3, 5) {
+		switch h.rng.Pick(3, 3, 3, 2, 10, 3, 5, 2, 2) {
+		case 7:
+			h.genLedger()
+		case 8:
+			h.genTuneOpt()
 		case 0:
 			h.genUpdate()
 		case 1:
@@ -1378,7 +1458,7 @@ func domAvs(env *Env) error {
 		}
 	}
 	if directed == 1 {
-		for i, f := range []func(){h.directedEmptySig, h.directedLegacyNilSig, h.directedChallengeHash, h.directedOutsider, h.directedMinWrap} {
+		for i, f := range []func(){h.directedEmptySig, h.directedLegacyNilSig, h.directedChallengeHash, h.directedOutsider, h.directedMinWrap, h.directedFractionBelowMin} {
 			h.start(env, env.Report.Seed*1000+900+uint64(i), 2, rng)
 			f()
 			finish("directed", i)
@@ -1390,6 +1470,9 @@ func domAvs(env *Env) error {
 		if hi%3 == 2 {
 			h.sweepHistory(uint64(rng.Intn(4)), uint64(rng.Intn(4)), uint64(rng.Intn(4)))
 			finish("sweep", hi)
+		} else if hi%6 == 1 {
+			h.optinSweepHistory(hi)
+			finish("optin-sweep", hi)
 		} else {
 			h.randomHistory(steps)
 			finish("random", hi)
